@@ -53,6 +53,10 @@ func c07Hist(ctx *Ctx, idx int) *Hist {
 	r := gen.New(seed)
 	SeedGlobalRand(seed)
 	cfg := driver.Config{ReadbackK: 0, Walk: true, KeepLog: true}
+	if idx%2 == 1 {
+		// neutral callbacks must not change error propagation either (C17)
+		cfg.CB = driver.CBMask(r.Intn(64)) &^ (driver.CBAlloc | driver.CBRef)
+	}
 	hc := HistCfg{Steps: r.Range(10, 30), NColls: r.Range(1, 2), NKeys: r.Range(4, 10), KeyClass: gen.KeysShort, ValClass: gen.ValsMixed,
 		Prio: gen.PrioRegime(r.Intn(int(gen.NumPrioRegimes))), Mix: mixC07, MaxSnaps: 2}
 	h := NewHist(r, cfg, hc, fmt.Sprintf("c07-%d", idx))
